@@ -4,9 +4,10 @@ from vlib import gocheck
 
 def main():
     groups = [dict(pkg='compiler/internal/context_v2', rel='internal/context_v2', harnesses=['HarnessC15Graph'], max_paths=400000, wall_timeout=1700),
-              dict(pkg='compiler/internal/context_v2', rel='internal/context_v2', harnesses=['HarnessC15Names'], max_paths=400000, wall_timeout=1700)]
+              dict(pkg='compiler/internal/context_v2', rel='internal/context_v2', harnesses=['HarnessC15Names'], max_paths=400000, wall_timeout=1700),
+              dict(pkg='compiler/internal/context_v2', rel='internal/context_v2', harnesses=['HarnessC15Race'], max_paths=400000, wall_timeout=1700)]
     rc = gocheck.run('C15', 'model_checking', groups, gocheck.GOSYM_ASSUME + [
-        'sync.RWMutex operations are no-ops: the calls of one history run sequentially, in every arrival order; the atomicity of check-then-insert under real concurrency (two AddDependency calls racing) is NOT decided',
+        'HarnessC15Graph / HarnessC15Names: the calls of one history run sequentially, in every arrival order. HarnessC15Race: two AddDependency calls run as logical threads under the cooperative scheduler of the interpreter (pre-emption only before a Lock / Unlock / RLock / RUnlock; every interleaving at that granularity is explored, lock semantics of sync.RWMutex modelled, deadlock reported); native replay repeats the harness with real goroutines until the assertion fails once',
         'map iteration order: ascending and descending key order (a symbolic choice), not all permutations',
         'processModule exactly-once scheduling (sync.Map, WaitGroup) and symbol visibility across modules are outside this check',
     ], 'AddDependency / findCycle / hasCyclePath / ComputeTopologicalOrder / GetModuleNames are executed from their SSA for every sequence of up to 4 (5 thorough) import edges over 3 modules, including self-imports and repetitions, in every arrival order (edges and order are symbolic choices, 9^K sequences): a call is refused with a circular-import error exactly when it would close a cycle in the graph accepted so far (reference: transitive closure), the stored graph equals the accepted one, and the build order lists every module once with dependencies first. HarnessC15Names: the same refusal obligation for every sequence of 4 import edges (12^4) over FOUR modules two of which share their file base name (x/u, y/u): module identity must be the full import path.',
